@@ -263,7 +263,13 @@ func exec(h History) *Trace {
 		rec.cur, rec.stepN = st, i
 		switch o.K {
 		case opPush:
-			m := &auparse.AuditMessage{RecordType: auparse.AuditMessageType(o.Typ), Sequence: o.Seq, RawData: "m" + strconv.Itoa(i)}
+			// every fourth message has the same text as others (records of one event can be byte-identical;
+			// they are still separate records)
+			raw := "m" + strconv.Itoa(i)
+			if i%4 == 1 {
+				raw = "same text"
+			}
+			m := &auparse.AuditMessage{RecordType: auparse.AuditMessageType(o.Typ), Sequence: o.Seq, RawData: raw}
 			rec.byPtr[m] = i
 			st.T0 = time.Now()
 			r.PushMessage(m)
